@@ -8,6 +8,7 @@ mod p02;
 mod p06;
 mod p07;
 mod p08;
+mod p09;
 mod p04;
 mod p05;
 mod p12;
@@ -78,6 +79,7 @@ fn main() {
         "C06" => p06::run(&cfg, &mut rng, &mut out),
         "C07" => p07::run(&cfg, &mut rng, &mut out),
         "C08" => p08::run(&cfg, &mut rng, &mut out),
+        "C09" => p09::run(&cfg, &mut rng, &mut out),
         "C04" => p04::run(&cfg, &mut rng, &mut out),
         "C05" => p05::run(&cfg, &mut rng, &mut out),
         "C12" => p12::run(&cfg, &mut rng, &mut out),
